@@ -42,21 +42,43 @@ class PM:
         self.failures.append((address, port))
 
 
-class StubProtocol:
-    datagram_received = KademliaProtocol.datagram_received
+_LOOP = [None]
 
-    def __init__(self):
-        self.peer_manager = PM()
-        self.handled = []
 
-    def handle_request_datagram(self, address, message):
-        self.handled.append(('request', message))
+def real_protocol():
+    """A real KademliaProtocol object built by the real constructor (so that every field the real datagram_received may use exists),
+    never connected to a transport."""
+    import asyncio
+    from lbry.dht.peer import PeerManager
+    if _LOOP[0] is None:
+        _LOOP[0] = asyncio.new_event_loop()
+    return KademliaProtocol(_LOOP[0], PeerManager(_LOOP[0]), b'\x01' * 48, '4.4.4.4', 4444, 3333)
 
-    def handle_response_datagram(self, address, message):
-        self.handled.append(('response', message))
 
-    def handle_error_datagram(self, address, message):
-        self.handled.append(('error', message))
+class Recorder:
+    def __init__(self, log, kind):
+        self.log, self.kind = log, kind
+
+    def __call__(self, address, message):
+        self.log.append((self.kind, message))
+
+
+def StubProtocol():
+    """The real protocol object; its peer manager and the three rpc handlers are replaced by recorders."""
+    proto = MAKE[0]()
+    proto.peer_manager = PM()
+    proto.handled = []
+    proto.handle_request_datagram = Recorder(proto.handled, 'request')
+    proto.handle_response_datagram = Recorder(proto.handled, 'response')
+    proto.handle_error_datagram = Recorder(proto.handled, 'error')
+    return proto
+
+
+MAKE = [real_protocol]
+
+
+def sym_setup(vm, job):
+    vm.models[id(real_protocol)] = lambda vm_, a, k: real_protocol()       # built natively: nothing symbolic goes in
 
 
 def check(proto, data):
@@ -69,6 +91,13 @@ def check(proto, data):
     if proto.peer_manager.failures:
         if proto.peer_manager.failures[0] != ('1.2.3.4', 4444):
             return 'VIOLATION: failure recorded for the wrong sender'
+        # the same sender repeats the datagram: it is an error result every time, not only the first time
+        try:
+            proto.datagram_received(data, ('1.2.3.4', 4444))
+        except Exception as e:
+            return 'VIOLATION: %s escapes datagram_received when a malformed datagram is repeated' % type(e).__name__
+        if proto.handled or proto.peer_manager.failures != [('1.2.3.4', 4444), ('1.2.3.4', 4444)]:
+            return 'VIOLATION: a repeated malformed datagram is not recorded as a failure of its sender again'
         return 'ok-dropped'
     # what reaches a handler is a well-formed message: the handlers use both ids as dictionary keys (sent_messages, routing table,
     # the lru-cached make_kademlia_peer), so an id that is not a byte string of the protocol's length raises out of the real handler
@@ -506,7 +535,20 @@ def _dict_keys_unsorted(node):
     return False
 
 
+def _id_type_unchecked(node):
+    """Canary: the datagram constructor accepts ids of any type again (the defect fixed in aac0340)."""
+    import ast
+    hit = False
+    for n in ast.walk(node):
+        if isinstance(n, ast.If) and 'isinstance' in ast.unparse(n.test):
+            n.test = ast.Constant(False)
+            hit = True
+    return hit
+
+
 CANARIES = [
+    dict(name='id-type-unchecked', target='lbry.dht.serialization.datagram:KademliaDatagramBase.__init__', mutate=_id_type_unchecked,
+         job=dict(family='typed', fn='typed_field', args=('pong',), loop_bound=400, max_depth=60, watchdog=3.0)),
     dict(name='negative-string-length', target='lbry.dht.serialization.bencoding:_bdecode', mutate=_negative_length_accepted,
          job=dict(family='garbage', fn='garbage', args=(4, None), loop_bound=7, max_depth=18)),
     dict(name='truncated-input-raises', target='lbry.dht.serialization.bencoding:bdecode', mutate=_index_error_escapes,
